@@ -18,12 +18,12 @@ checks["C01"] = (TV,
     "real front-end + Bash back-end executed symbolically from SSA on scalar program shapes (symbolic 64-bit literals, "
     "operator choices, neutral string bytes); the emitted script is interpreted by ShSem and compared, for all values on "
     "each path, with RefTSH's evaluation of the same AST (stdout, exit status, stderr); unsat on every path within the shapes/bounds; "
-    "curated shapes plus 40 (quick) / 600 (thorough) programs from a typed generator (seeded by VERIF_SEED)",
+    "curated shapes plus 40 (quick) / 6000 (thorough) programs from a typed generator (seeded by VERIF_SEED)",
     trust_sh, tech_sh)
 checks["C02"] = (TV,
     "as C01 on function/frame shapes: by-value/by-reference parameters, name reuse across frames, global writes from "
     "functions, multi-value returns (also into mixed global/local targets), nested calls (also as statement), empty-string arguments, "
-    "simultaneous assignment in every operand form; plus 30 (quick) / 500 (thorough) generated programs with functions", trust_sh, tech_sh)
+    "simultaneous assignment in every operand form; plus 30 (quick) / 5000 (thorough) generated programs with functions", trust_sh, tech_sh)
 checks["C03"] = (TV,
     "as C01 on slice/string shapes: growth with symbolic indices 0..12, aliasing, range, copy, substrings with symbolic "
     "bounds and symbolic string bytes, copy into global/local/parameter destinations inside functions, nested range over non-variable operands", trust_sh, tech_sh)
@@ -32,7 +32,7 @@ checks["C04"] = (TV,
     "exactly-once, eager order for all steering values", trust_sh,
     "SSA symbolic execution + trace equivalence decided by z3 per path")
 checks["C11"] = (MC,
-    "bounded symbolic execution of lexer.Tokenize from SSA on fully symbolic byte strings (n<=2 quick, n<=3 thorough) and "
+    "bounded symbolic execution of lexer.Tokenize from SSA on fully symbolic byte strings (n<=2 quick, n<=4 thorough) and "
     "on lexeme templates with symbolic hole bytes; every path is compared, for all byte values on it, with an independent reference lexer",
     "trusted: reference lexer oracle/reflex.go, intrinsic models of regexp/strconv/strings, z3 4.8.12; conditions over <=3 "
     "independent byte variables are settled by exhaustive evaluation over their domains, all others by z3; outside the "
@@ -69,7 +69,7 @@ checks["C14"] = (MC,
 # extra entries are appended by later edits of this file
 EXTRA_CHECKS = {}
 EXTRA_CHECKS["C08"] = (TV,
-    "as C01 with a string value of 1..2 (quick) / 1..3 (thorough) symbolic bytes over printable ASCII + newline/tab "
+    "as C01 with a string value of 1..2 (quick) / 1..4 (thorough) symbolic bytes over printable ASCII + newline/tab "
     "travelling along 17 data paths from 3 origins (raw literal, file read at run time, standard input); ShSem records "
     "for every data byte the condition under which the shell would interpret it (quote, expansion, escape, word "
     "splitting, globbing, option); one violation condition per path (some byte is active OR an observable differs) is "
